@@ -39,6 +39,11 @@ def zbool(expr):
 
 
 class SZInt:
+    def __getattr__(self, k):
+        from .core import ModelGap
+
+        raise ModelGap("'SZInt' proxy has no model of attribute '%s'" % k)
+
     def __init__(self, t):
         self.t = t
 
@@ -92,6 +97,12 @@ class SZInt:
 
 class SZInv:
     """~x of a symbolic natural (a negative number): only  (~x) & (2^k - 1)  =  2^k - 1 - (x mod 2^k)  is supported"""
+
+    def __getattr__(self, k):
+        from .core import ModelGap
+
+        raise ModelGap("'SZInv' proxy has no model of attribute '%s'" % k)
+
 
     def __init__(self, x):
         self.x = x
